@@ -415,6 +415,9 @@ func init() {
 			})
 			c.R.Merge(sub, func(sig string) bool { return strings.HasPrefix(sig, "C07:") })
 		}
+		// lost cache entries while dependency outputs are loaded for an executing dependant (load_outputs=minimal):
+		// "re-executing whatever was lost rather than restoring corrupt data or failing"
+		missingBlobs(c, "C07", true)
 		var hn []string
 		for _, h := range hs {
 			hn = append(hn, h.name)
